@@ -10,7 +10,8 @@ Call monitors (Layer A)
   lp_hard_edge     post(lowpass, sigma = 0): G = 1 <=> kx^2+ky^2+kz^2 <= cut^2 (integer arithmetic), else 0
   lp_soft_edge     post(lowpass, sigma > 0): G = 1 for r <= cut-4s-1, 0 for r >= cut+4s+1 (up to the Gaussian tail mass
                    beyond 4 sigma, 1.2e-3; to 1e-9 beyond sqrt3(4s+1))
-  lp_soft_rays     post(lowpass, sigma > 0): G non-increasing along the lattice rays from the origin
+  lp_soft_rays     post(lowpass, sigma > 0): G non-increasing along the lattice rays from the origin (judged when the
+                   cutoff ball fits into the box on every axis, cut <= min(N)//2)
   lp_soft_symmetry post(lowpass, sigma > 0): G invariant under swaps of equal-sized axes and, when the blurred sphere
                    stays inside the box, under a sign flip of one frequency index
   hp_gain          post(highpass): 1-G obeys the low-pass clauses above (hard: G = 0 <=> k^2 <= cut^2; soft: plateaus,
@@ -53,7 +54,8 @@ ASSUMPTIONS = [
     "k <-> -k average of the transfer function, i.e. what the user receives",
     "soft edge: '1 inside cutoff-4s-1 / 0 outside cutoff+4s+1' is judged up to 1.2e-3 = mass of an isotropic 3-D Gaussian beyond "
     "4 sigma (a Gaussian edge cannot do better: the unchanged code is off by up to 2.3e-4, e.g. box 31, cut 13, sigma 3, k = 0) "
-    "and to 1e-9 beyond sqrt(3)*(4s+1); 'non-increasing in between' is judged along lattice rays from the origin, 'depends on the "
+    "and to 1e-9 beyond sqrt(3)*(4s+1); 'non-increasing in between' is judged along lattice rays from the origin and only when the "
+    "cutoff ball fits into the box on every axis (cut <= min(N)//2; always true for cubic boxes), 'depends on the "
     "radius' as invariance under swaps of equal axes and single-index sign flips when cut+4s+1 < min(N)/2 (DESIGN 4/C12)",
     "band-pass gain >= 0 is judged only where it follows from the statement: equal widths and hp <= lp, or stop band of the inner "
     "filter reached before the outer one starts to fall; band-pass == LP(lp) - LP(hp) is judged always",
@@ -69,15 +71,15 @@ SIGMAS = [0.5, 1, 2, 3, 4]
 def plan(tier):
     if tier == "quick":
         return dict(n_cases=28 * len(CLASSES), shards=1, classes=CLASSES, timeout_s=900,
-                    min_evals={"lp_gain": 1200, "lp_hard_edge": 700, "lp_soft_edge": 400, "lp_soft_rays": 350, "lp_soft_symmetry": 220,
+                    min_evals={"lp_gain": 1200, "lp_hard_edge": 700, "lp_soft_edge": 400, "lp_soft_rays": 300, "lp_soft_symmetry": 220,
                                "hp_gain": 1200, "hp_complement": 1200, "bp_difference": 500, "bp_gain": 500, "res2pix": 150,
                                "filter_radius": 2500, "linearity": 250, "shift_commute": 250, "plane_wave": 2500,
                                "resolution_equiv": 100})
-    return dict(n_cases=16 * 70 * len(CLASSES), shards=16, classes=CLASSES, timeout_s=3300,
-                min_evals={"lp_gain": 40000, "lp_hard_edge": 20000, "lp_soft_edge": 15000, "lp_soft_rays": 12000, "lp_soft_symmetry": 10000,
-                           "hp_gain": 30000, "hp_complement": 30000, "bp_difference": 15000, "bp_gain": 15000, "res2pix": 5000,
-                           "filter_radius": 80000, "linearity": 10000, "shift_commute": 10000, "plane_wave": 40000,
-                           "resolution_equiv": 4000})
+    return dict(n_cases=16 * 50 * len(CLASSES), shards=16, classes=CLASSES, timeout_s=3300,
+                min_evals={"lp_gain": 50000, "lp_hard_edge": 25000, "lp_soft_edge": 25000, "lp_soft_rays": 8000, "lp_soft_symmetry": 6000,
+                           "hp_gain": 50000, "hp_complement": 50000, "bp_difference": 25000, "bp_gain": 25000, "res2pix": 10000,
+                           "filter_radius": 150000, "linearity": 8000, "shift_commute": 8000, "plane_wave": 120000,
+                           "resolution_equiv": 5000})
 
 
 # ---- the quantifier as predicates ---------------------------------------------------------------
@@ -166,7 +168,15 @@ def _judge_lowpass_like(ctx, prefix, g, cut, sigma, info, lowpass_like):
         ctx.check(prefix + ("_hard_edge" if lowpass_like else "_gain"), w is None, w and dict(w, **info))
         return
     w, cnt = O.soft_plateaus(g, cut, sigma, lowpass_like)
-    wr, npairs = O.rays_nonincreasing(g, lowpass_like)
+    # rays: judged when the cutoff ball fits into the box on EVERY axis (always true in cubic boxes).  Beyond that
+    # (non-cubic, min(N)//2 < cut <= N0//2) the quantifier's "cutoffs 1..N/2" is ambiguous and the unchanged code shows
+    # increases of up to 1e-7 next to the faces of the short axes (mode='nearest' replication) - counted, not judged.
+    if cut <= min(g.shape) // 2:
+        wr, npairs = O.rays_nonincreasing(g, lowpass_like)
+    else:
+        wr, npairs = None, 0
+        ctx.extra["soft_executions_with_cutoff_beyond_a_short_axis_rays_not_judged"] = ctx.extra.get(
+            "soft_executions_with_cutoff_beyond_a_short_axis_rays_not_judged", 0) + 1
     if lowpass_like:
         ctx.check("lp_soft_edge", w is None, w and dict(w, **info))
         if npairs:
@@ -449,6 +459,12 @@ def gen(ctx, i, cls):
         lo = max(1, int(np.floor(half - 4 * s_lp - 1)))
         lp_cut = int(rng.integers(lo, half + 1))
         hp_cut = int(rng.integers(1, lp_cut + 1))
+    elif cls == "noncubic_soft":
+        if rng.random() < 0.65:                            # cutoff ball inside the box on every axis: rays are judged
+            lp_cut = int(rng.integers(1, min(shape) // 2 + 1))
+            hp_cut = int(rng.integers(1, lp_cut + 1))
+        elif lp_cut < hp_cut:
+            lp_cut, hp_cut = hp_cut, lp_cut
     elif cls == "cut_extremes":
         lp_cut, hp_cut = (half, 1) if rng.random() < 0.6 else (1, half) if rng.random() < 0.5 else (half, half)
     elif cls == "bandpass_mixed_sigma":
